@@ -34,8 +34,11 @@ DiskOdd == (1 :> {F("VfA", "1", <<>>), F("VfA", "1.0", <<>>), F("VfA", "1.x", <<
                   F("VfB", "1.0.1", <<>>), F("VfB", "x", <<>>)})
         @@ (2 :> {F("VfA", "1.0", <<>>), F("VfA", "01.09", <<>>), F("VfB", "1.x", <<>>)})
 \* simulation: everything at once
-DiskAll == (1 :> DiskVersions[1] \cup DiskDeps[1]) @@ (2 :> DiskVersions[2] \cup DiskDeps[2] \cup {F("VfC", "1.9", <<D("VfA", "1.9")>>)})
-        @@ (3 :> DiskVersions[3] \cup DiskDeps[3] \cup {F("VfA", "1", <<>>), F("VfA", "1.x", <<>>)})
+DiskAll == (1 :> {F("VfA", "1.9", <<>>), F("VfA", "1.0", <<D("VfB", "1.0"), D("VfC", "1.0")>>)})
+        @@ (2 :> {F("VfA", "1.10", <<>>), F("VfA", "1.9", <<>>), F("VfB", "1.0", <<>>), F("VfC", "1.0", <<D("VfB", "1.0")>>),
+                  F("VfA", "2.0", <<D("VfC", "2.0"), D("VfB", "1.0")>>), F("VfC", "1.9", <<D("VfA", "1.9")>>)})
+        @@ (3 :> {M("VfA", "2.0", "VfA", "1.0", <<D("VfB", "1.0"), D("VfC", "1.0")>>), M("VfB", "1.9", "VfC", "1.9", <<D("VfA", "1.9")>>),
+                  F("VfB", "2.0", <<>>), F("VfC", "2.0", <<D("VfB", "2.0")>>), F("VfA", "1", <<>>), F("VfA", "1.x", <<>>)})
 
 MC_EnvA == {<<1>>, <<1, 2>>, <<2, 1>>}
 MC_EnvB == {<<1, 2>>, <<3, 2, 1>>}
@@ -56,8 +59,26 @@ MC_Both == {TRUE, FALSE}
 \* <<clause, cause>> pairs broken by the DESIGN as transcribed in the I-layer (each is replayed on the real code)
 MC_KnownDesign == {<<"Refused", "versionless_mismatch">>, <<"LoadedRight", "versionless_mismatch">>,
                    <<"DepsClosed", "closure_conflict">>, <<"LoadedRight", "closure_conflict">>,
-                   <<"DepsOutcome", "closure_conflict">>, <<"EagerStable", "closure_conflict">>}
+                   <<"DepsOutcome", "closure_conflict">>, <<"EagerStable", "closure_conflict">>,
+                   <<"ZoneConsistent", "lazy_upgrade">>, <<"LazyStable", "lazy_upgrade">>,
+                   <<"LazyStable", "lazy_dependency">>,
+                   <<"ZoneConsistent", "mem_other_version">>, <<"LazyStable", "mem_other_version">>,
+                   <<"DepsClosed", "mem_other_version">>, <<"ResultKind", "mem_other_version">>}
 MC_None == {}
+MC_Skip == {<<"SKIP", "SKIP">>}
+\* witness searches: TLC's counterexample to "no step has this root cause" is replayed on the real code
+NoW_versionless == \A b \in last.broken : b[2] # "versionless_mismatch"
+NoW_lazy_upgrade == \A b \in last.broken : b[2] # "lazy_upgrade"
+NoW_lazy_dependency == \A b \in last.broken : b[2] # "lazy_dependency"
+NoW_mem_other == \A b \in last.broken : b[2] # "mem_other_version"
+NoW_closure_conflict == \A b \in last.broken : b[2] # "closure_conflict"
+\* coverage witnesses (no property violation): a failed call that leaves dependencies registered,
+\* a numeric election 1.10 > 1.9 decided against the earlier directory, a dependency conflict
+NoW_partial == FailedCallChangesNothing
+NoW_numeric == ~(last.c.op = "Require" /\ last.c.ver = NONE /\ last.o.res = "ok" /\ "VfA" \in DOMAIN loaded
+                 /\ loaded["VfA"].c.ver = "1.10" /\ loaded["VfA"].dir # path[1])
+NoW_depconflict == ~(last.c.op = "Require" /\ last.o.res = "CONFLICT" /\ last.c.ns \notin DOMAIN loaded
+                     /\ DOMAIN loaded # DOMAIN last.pre)
 MC_DiskVersions == {DiskVersions}
 MC_DiskDeps == {DiskDeps}
 MC_DiskBad == {DiskBad}
